@@ -162,6 +162,9 @@ def run(pid, tier, seed, njobs=None):
                               "rejected": len(sv["rejected"])},
            "rejected": len(v["rejected"]) + len(sv["rejected"]),
            "tlc_trace_validation": {"states": v["states"], "distinct": v["distinct"], "wall_s": round(v["wall"], 1)}}
+    # bounded-exhaustive exploration of tiny programs on the real crate, every execution replayed through Flurry.tla
+    import explore
+    cov["bounded_exhaustive_exploration"] = explore.leg(pid, tier, seed, verdict)
     lib.add_spec_coverage(cov, pid, tier)
     rc = verdict.finish()
     lib.write_evidence(pid, tier, seed, "model_checking", cov, time.time() - t0, len(verdict.violations),
